@@ -8,6 +8,22 @@
 namespace SA.DnsServer
 
 def coveredSites : List Nat := [
+  2248506465,  -- wrap.go|unescapePresentation|index|_[_]#1   s[i]
+      -- ^ loop index i < len(s)
+  4204028541,  -- wrap.go|unescapePresentation|index|_[_+1]#1   s[i+1]
+      -- ^ same case condition: i+3 < len(s) is tested first (&& short-circuits)
+  2555809270,  -- wrap.go|unescapePresentation|index|_[_+2]#1   s[i+2]
+      -- ^ same case condition: i+3 < len(s) is tested first
+  3647457135,  -- wrap.go|unescapePresentation|index|_[_+3]#1   s[i+3]
+      -- ^ same case condition: i+3 < len(s) is tested first
+  4153695684,  -- wrap.go|unescapePresentation|index|_[_+1]#2   s[i+1]
+      -- ^ case body: i+3 < len(s) holds
+  2539031651,  -- wrap.go|unescapePresentation|index|_[_+2]#2   s[i+2]
+      -- ^ case body: i+3 < len(s) holds
+  3664234754,  -- wrap.go|unescapePresentation|index|_[_+3]#2   s[i+3]
+      -- ^ case body: i+3 < len(s) holds
+  2198173608,  -- wrap.go|unescapePresentation|index|_[_]#2   s[i]
+      -- ^ after i++ under the case condition i+1 < len(s); DnsClient.unescPresF by pattern matching
   816648987,  -- cmd_error.go|ErrorResponse.Decode|slice|_[1:]#1   response[1:]
       -- ^ DnsClient.decodeResponse: explicit sliceFrom/slice/idx after the length guards
   4048619025,  -- cmd_packet.go|PacketRequest.Decode|slice|_._._[:_]#1   vr.Packet.Data[:n]
